@@ -291,10 +291,20 @@ LONG_POS = ['len', 'lcs', 'x5', 'x6', 'x7', 'tfi', 'code', 'mid', 'last',
             'dcs', 'post']
 
 
-def accept_long(sx, driver, plen, edit):
+SINGLES = LONG_POS
+PAIRS = ['len+lcs', 'dcs+post', 'last+dcs', 'tfi+dcs', 'code+dcs', 'x5+x6',
+         'x6+x7', 'len+dcs', 'mid+post', 'tfi+post', 'code+post', 'lcs+x5']
+TRIPLES = ['len+lcs+dcs', 'x5+x6+x7', 'tfi+code+dcs', 'mid+dcs+post',
+           'len+lcs+x5', 'last+dcs+post', 'tfi+dcs+post', 'lcs+x6+x7']
+EDITS = ['none', 'cut1', 'cut2', 'add1', 'add2'] + SINGLES + PAIRS + TRIPLES
+EDITS_SMALL = ['none', 'cut1', 'len+lcs', 'dcs+post', 'tfi+dcs+post']
+
+
+def accept_long(sx, driver, plen, edits):
     """a valid response frame with plen payload bytes (LEN = plen + 2 straddles
     the normal/extended switch) with up to three positions overwritten by
     arbitrary bytes, or cut / extended by one or two bytes"""
+    edit = sx.pick("edit", EDITS if edits == 'all' else EDITS_SMALL)
     cs, link = make_chipset(sx, driver)
     link.begin()
     code = 0x42
@@ -390,31 +400,45 @@ def accept_ccid(sx, n, via):
 # ----------------------------------------------------------------------------
 # (c) CRC
 # ----------------------------------------------------------------------------
-def impl_crc(sx, m, preset):
-    """calculate_crc(m, len(m), preset): symbolic mode -> the if-converted
-    term of the current source, validated against the real function on
-    concrete vectors; native mode -> the real function"""
+def impl_crc(sx, m, k, preset, validate=True):
+    """calculate_crc(m, k, preset): symbolic mode -> the if-converted term of
+    the current source (validated against the real function on concrete
+    vectors when k == len(m)); native mode -> the real function"""
     n = len(m)
     if sx.mode != 'sym':
-        return crcref.REAL(m, n, preset)
-    k = crcref.kernel()
-    term = k(m, n, preset)
-    # validate the translation (substitution into the very term that is proven)
-    vecs = [v for kind, v, c in crcref.REPO_VECTORS + crcref.ANNEX_B if len(v) == n]
-    vecs += ifconv.random_vectors("C14", n, 16)
-    vecs += [[0] * n, [255] * n]
-    variables = list(m.items) if n else []
-    done = ifconv.validate_term(term, variables,
-                                lambda v: crcref.REAL(bytearray(v), n, preset), vecs)
-    if n and (done < 10 or k.ifs < 8 * n):
-        raise core.Unsupported("ifconv: validation did not exercise the term")
+        return crcref.REAL(m, k, preset)
+    kern = crcref.kernel()
+    ifs0 = kern.ifs
+    term = kern(m, k, preset)
+    if validate and k == n:
+        # substitution into the very term that is proven
+        vecs = [v for kind, v, c in crcref.REPO_VECTORS + crcref.ANNEX_B
+                if len(v) == n]
+        vecs += ifconv.random_vectors("C14", n, 16)
+        vecs += [[0] * n, [255] * n]
+        variables = list(m.items) if n else []
+        done = ifconv.validate_term(
+            term, variables, lambda v: crcref.REAL(bytearray(v), n, preset), vecs)
+        if n and (done < 10 or kern.ifs - ifs0 < 8 * n):
+            raise core.Unsupported("ifconv: validation did not exercise the term")
     return term
 
 
-def crc_equiv(sx, kind, n):
+def crc_equiv(sx, kind, n, chain=0):
+    """calculate_crc == ISO 13239 reference for every message of n bytes.
+    chain=0: one solver query.  chain=1: the same statement proven prefix by
+    prefix - the equality for k bytes (just proven by sx.check) is given to the
+    solver as a lemma for k+1 bytes, so each query is one byte step; this is
+    induction over the byte loop carried out inside the solver."""
     m = sx.bytes("m", n, mutable=True)
     preset = 0x6363 if kind == 'a' else 0xFFFF
-    impl = impl_crc(sx, m, preset)
+    if chain:
+        for k in range(1, n):
+            ik = impl_crc(sx, m, k, preset)
+            rk = crcref.reference(list(m)[:k], preset)
+            sx.check(ik == rk, "crc-differs-from-iso13239:%s:prefix" % kind)
+            sx.assume(ik == rk, "CRC equality of a proper prefix, proven by the preceding check (lemma)")
+    impl = impl_crc(sx, m, n, preset)
     ref = crcref.reference(list(m), preset)
     sx.check(impl == ref, "crc-differs-from-iso13239:%s" % kind)
     sx.reach("crc-proved:%s" % kind)
@@ -535,21 +559,13 @@ def partitions(tier):
                     continue
                 add("accept:%s:%s:%d" % (d, mode, n), "accept_pn53x",
                     driver=d, n=n, mode=mode)
-    singles = LONG_POS
-    pairs = ['len+lcs', 'dcs+post', 'last+dcs', 'tfi+dcs', 'code+dcs', 'x5+x6',
-             'x6+x7', 'len+dcs', 'mid+post', 'tfi+post', 'code+post', 'lcs+x5']
-    triples = ['len+lcs+dcs', 'x5+x6+x7', 'tfi+code+dcs', 'mid+dcs+post',
-               'len+lcs+x5', 'last+dcs+post', 'tfi+dcs+post', 'lcs+x6+x7']
-    edits = ['none', 'cut1', 'cut2', 'add1', 'add2'] + singles + pairs + triples
     for d in (['pn532'] if q else ['pn532', 'pn533', 'rcs956', 'arygonB']):
         for plen in [252, 253, 254, 255]:
-            for e in edits:
-                add("long:%s:%d:%s" % (d, plen, e), "accept_long",
-                    driver=d, plen=plen, edit=e)
+            add("long:%s:%d" % (d, plen), "accept_long", driver=d, plen=plen,
+                edits='all')
     for plen in ([250] if q else [0, 250]):
-        for e in ['none', 'cut1', 'len+lcs', 'dcs+post', 'tfi+dcs+post']:
-            add("long:pn531:%d:%s" % (plen, e), "accept_long",
-                driver='pn531', plen=plen, edit=e)
+        add("long:pn531:%d" % plen, "accept_long", driver='pn531', plen=plen,
+            edits='small')
     for d in (['pn532', 'pn531'] if q else PN):
         for plen in [0, 1, 2, 252, 253, 254, 255, 262]:
             if d in NORMAL_ONLY and plen > 252:
@@ -562,13 +578,12 @@ def partitions(tier):
 
     # (c) CRC
     for kind in ('a', 'b'):
-        for n in range(0, (8 if q else 24) + 1):
-            add("crc:%s:%d" % (kind, n), "crc_equiv", kind=kind, n=n)
-        for n in range(0, (4 if q else 12) + 1):
+        for n in range(0, (5 if q else 7) + 1):
+            add("crc:%s:%d" % (kind, n), "crc_equiv", kind=kind, n=n, chain=0)
+        for n in ([2, 3, 4, 5, 6, 7, 8, 12, 16] if q else list(range(2, 25))):
+            add("crcind:%s:%d" % (kind, n), "crc_equiv", kind=kind, n=n, chain=1)
+        for n in range(0, (4 if q else 6) + 1):
             add("crcapi:%s:%d" % (kind, n), "crc_api", kind=kind, n=n)
-    if not q:
-        for n in (32, 48, 64):
-            add("crc:a:%d" % n, "crc_equiv", kind='a', n=n)
     add("crc:step", "crc_step")
     for d in ['pn532', 'rcs380'] + ([] if q else ['pn531', 'pn533', 'rcs956', 'acr122']):
         for n in range(0, (6 if q else 10) + 1):
